@@ -473,6 +473,23 @@ def check_index(ck: Check, bad: list):
                    f"global tables at degree {d}", {"case": "index-local", "d": d})
 
 
+    # (6) the dictionary builder every library caller uses (_create_encode_dict_from_clmo on locally built tables) at HIGH degree:
+    # the number of slots exceeds 2^16 from degree 21 on (C(26,5) = 65780); exhaustive sweep of the local tables like (4)
+    top_local = 30
+    t0 = time.time()
+    psiL, clmoL = base._init_index_tables(top_local)
+    encL = base._create_encode_dict_from_clmo(clmoL)
+    for d in range(9, top_local + 1):
+        K = _enum_array(d)
+        packed = K[:, 1] | (K[:, 2] << 6) | (K[:, 3] << 12) | (K[:, 4] << 18) | (K[:, 5] << 24)
+        nbad = int(sweep(K, packed.astype(np.int64), d, clmoL, encL))
+        ck.count(("index-sweep-local", d), True, n=K.shape[0])
+        if nbad != 0 or int(psiL[6, d]) != K.shape[0]:
+            report("index-tables|local-tables-sweep", f"degree {d}: {nbad} of {K.shape[0]} slots of _init_index_tables({top_local}) / "
+                   f"_create_encode_dict_from_clmo disagree with Rank/Pack", {"case": "index-local-sweep", "d": d, "top": top_local})
+    ck.part("index", local_sweep_max_degree=top_local, local_sweep_s=round(time.time() - t0, 1))
+
+
 # --------------------------------------------------------------------------
 # C. schedules through the py_func source with a write monitor
 # --------------------------------------------------------------------------
